@@ -5,6 +5,7 @@ import (
 	"errors"
 	"fmt"
 	"io"
+	"strings"
 	"text/template"
 
 	"github.com/emersion/go-message/textproto"
@@ -27,6 +28,11 @@ func stubTemplateExecute(t *template.Template, w io.Writer, data interface{}) er
 //
 //verif:stub github.com/emersion/go-message/textproto.randomBoundary @harness_C18_report
 func stubRandomBoundary() string { return "verifboundary0000" }
+
+const (
+	c18UDomain = "тест.example"
+	c18ADomain = "xn--e1aybc.example"
+)
 
 type c18Rcpt struct {
 	effective string // what the queue holds
@@ -57,16 +63,23 @@ func harness_C18_report() {
 	// recipients with 0, 1 or 2 levels of rewriting between the client's address and the queued one
 	var rcpts []c18Rcpt
 	var to []string
+	// idn = 1: the first recipient may live in an internationalized domain (held
+	// in U-label form, as the endpoint normalises it) - at every rewriting level
+	idn := verifParam("idn", 0) == 1 && nondetBool("idn")
 	for i := 0; i < n; i++ {
-		eff := fmt.Sprintf("eff%d@example.org", i)
+		effDom, origDom := "example.org", "example.com"
+		if idn && i == 0 {
+			effDom, origDom = c18UDomain, c18UDomain
+		}
+		eff := fmt.Sprintf("eff%d@%s", i, effDom)
 		r := c18Rcpt{effective: eff, original: eff}
 		switch nondetInt(fmt.Sprintf("rewrites%d", i), 0, verifParam("maxrewrites", 2)) {
 		case 1:
-			r.original = fmt.Sprintf("orig%d@example.com", i)
+			r.original = fmt.Sprintf("orig%d@%s", i, origDom)
 			mm.OriginalRcpts[eff] = r.original
 		case 2:
 			mid := fmt.Sprintf("mid%d@example.org", i)
-			r.original = fmt.Sprintf("orig%d@example.com", i)
+			r.original = fmt.Sprintf("orig%d@%s", i, origDom)
 			mm.OriginalRcpts[mid] = r.original
 			mm.OriginalRcpts[eff] = mid
 		}
@@ -155,7 +168,12 @@ func harness_C18_report() {
 		verifFail("C18.recipient-count")
 	}
 	for _, r := range failed {
-		if bytes.Count(body, []byte("Final-Recipient: "+kind+r.original+"\r\n")) != 1 {
+		// a report that is not SMTPUTF8 names internationalized domains in A-label form
+		shown := r.original
+		if !utf8 {
+			shown = strings.ReplaceAll(shown, c18UDomain, c18ADomain)
+		}
+		if bytes.Count(body, []byte("Final-Recipient: "+kind+shown+"\r\n")) != 1 {
 			verifFail("C18.recipient-not-under-original-address")
 		}
 	}
